@@ -285,6 +285,8 @@ namespace
         {
             return false;
         }
+        // what allocator_traits reports as maxima for the composition
+        virtual void maxes(std::size_t& mn, std::size_t& ma, std::size_t& mal) = 0;
         // shrink_to_fit of a library stack inside the composition
         virtual bool shrink()
         {
@@ -405,6 +407,12 @@ namespace
         bool composable() override
         {
             return is_comp;
+        }
+        void maxes(std::size_t& mn, std::size_t& ma, std::size_t& mal) override
+        {
+            mn  = traits::max_node_size(a);
+            ma  = traits::max_array_size(a);
+            mal = traits::max_alignment(a);
         }
         bool smart(const std::string& kind, int cls, std::size_t n, void*& p, std::size_t& cnt, std::size_t& sz,
                    std::size_t& al, std::function<void()>& rel) override
@@ -803,7 +811,13 @@ namespace
         for (auto& st : g_leaf)
             st = LeafState();
         Made m = make_comp(x.str("comp"));
+        std::size_t mxn = 0, mxa = 0, mxal = 0;
+        if (m.c)
+            m.c->maxes(mxn, mxa, mxal);
         Ev("comp")
+            .uc("mxn", mxn)
+            .uc("mxa", mxa)
+            .uc("mxal", mxal)
             .s("name", x.str("comp"))
             .b("ok", m.c != nullptr)
             .b("fb", m.fallback)
